@@ -4,6 +4,7 @@ import JanetModel.Int64.Lemmas
 import Mathlib.Algebra.Order.Field.Rat
 import Mathlib.Tactic.Positivity
 import Mathlib.Tactic.Linarith
+import Mathlib.Data.Rat.Floor
 namespace JanetModel.Int64
 
 /-- the rational value of a finite decoded double (0 for NaN / infinities, which the theorems treat separately) -/
@@ -61,5 +62,82 @@ theorem decode_value (b : Nat) (neg : Bool) (m : Nat) (e : Int) (h : decode b = 
     · injection h with h1 h2 h3
       refine ⟨h1.symm, Or.inr ⟨by omega, by omega, by omega, ?_⟩⟩
       rw [← h3]; rfl
+
+/-! ## plain-number operators: the VM handlers over abstract IEEE primitives, with named assumptions -/
+
+/-- the bit pattern is a finite double -/
+def FinBits (b : Nat) : Prop := ∃ neg m e, decode b = .fin neg m e
+/-- its rational value -/
+def valQ (b : Nat) : ℚ := (decode b).toRat
+
+/-- NAMED ASSUMPTION (libm `floor`): the floor of a finite double is a finite double with the mathematical floor as value
+    (true of IEEE-754: the floor of a binary64 is representable) -/
+def FloorExact (N : NumOps) : Prop := ∀ b, FinBits b → FinBits (N.floor b) ∧ valQ (N.floor b) = (⌊valQ b⌋ : ℚ)
+
+/-- NAMED ASSUMPTION, per input: the IEEE operation `f` does not round (and does not overflow) at (a, b), i.e. the exact
+    result `op a b` is representable.  Holds e.g. for integer-valued operands below 2^53 whose result is such an integer. -/
+def ExactAt (f : Nat → Nat → Nat) (op : ℚ → ℚ → ℚ) (a b : Nat) : Prop := FinBits (f a b) ∧ valQ (f a b) = op (valQ a) (valQ b)
+
+/-- `(div a b)` on two numbers is `floor` applied to the IEEE quotient — by the shape of the handler — … -/
+theorem num_div_is_floor_of_quotient (N : NumOps) (a b : Nat) : numDivFloor N a b = N.floor (N.div a b) := rfl
+
+/-- … so its value is the floor of the (rounded) quotient, and ⌊a/b⌋ exactly whenever the quotient is representable -/
+theorem num_div_value (N : NumOps) (hf : FloorExact N) (a b : Nat) :
+    (FinBits (N.div a b) → valQ (numDivFloor N a b) = (⌊valQ (N.div a b)⌋ : ℚ)) ∧
+    (ExactAt N.div (· / ·) a b → valQ (numDivFloor N a b) = (⌊valQ a / valQ b⌋ : ℚ)) := by
+  refine ⟨fun h => (hf _ h).2, fun h => ?_⟩
+  rw [num_div_is_floor_of_quotient, (hf _ h.1).2, h.2]
+
+/-- `(mod a 0)` and `(mod a -0)` are `a` itself (bit for bit) -/
+theorem num_mod_zero_is_dividend (N : NumOps) (a b : Nat) (hz : isZeroBits b = true) : numModulo N a b = a := by
+  unfold numModulo; rw [if_pos hz]
+
+theorem isZeroBits_false (b : Nat) (hb : FinBits b) (hz : isZeroBits b = false) : valQ b ≠ 0 := by
+  obtain ⟨neg, m, e, h⟩ := hb
+  unfold isZeroBits at hz
+  unfold valQ
+  rw [h] at hz ⊢
+  have hm : m ≠ 0 := by
+    intro h0; subst h0; simp at hz
+  simp only [Dbl.toRat]
+  have h2 : ((2 : ℚ) ^ e) ≠ 0 := zpow_ne_zero _ (by norm_num)
+  have h1 : (smant neg m : ℚ) ≠ 0 := by
+    unfold smant
+    cases neg <;> simp <;> exact_mod_cast hm
+  exact mul_ne_zero h1 h2
+
+/-- `(mod a b)`, b ≠ 0: the handler computes a - b * floor(a / b); when none of the three IEEE operations rounds at this
+    input, the value is a - b⌊a/b⌋, which lies in [0, b) for b > 0 and in (b, 0] for b < 0 (sign of the divisor) -/
+theorem num_mod_value (N : NumOps) (hf : FloorExact N) (a b : Nat) (hb : FinBits b) (hz : isZeroBits b = false)
+    (hd : ExactAt N.div (· / ·) a b) (hm : ExactAt N.mul (· * ·) b (N.floor (N.div a b)))
+    (hs : ExactAt N.sub (· - ·) a (N.mul b (N.floor (N.div a b)))) :
+    valQ (numModulo N a b) = valQ a - valQ b * (⌊valQ a / valQ b⌋ : ℚ) ∧
+    (0 < valQ b → 0 ≤ valQ (numModulo N a b) ∧ valQ (numModulo N a b) < valQ b) ∧
+    (valQ b < 0 → valQ b < valQ (numModulo N a b) ∧ valQ (numModulo N a b) ≤ 0) := by
+  have hb0 := isZeroBits_false b hb hz
+  have hv : valQ (numModulo N a b) = valQ a - valQ b * (⌊valQ a / valQ b⌋ : ℚ) := by
+    unfold numModulo
+    rw [if_neg (by simp [hz]), hs.2, hm.2, (hf _ hd.1).2, hd.2]
+  refine ⟨hv, fun hp => ?_, fun hn => ?_⟩
+  · rw [hv]
+    have h1 := Int.floor_le (valQ a / valQ b)
+    have h2 := Int.lt_floor_add_one (valQ a / valQ b)
+    generalize (⌊valQ a / valQ b⌋ : ℚ) = q at *
+    have e : valQ a = valQ b * (valQ a / valQ b) := by field_simp
+    generalize valQ a / valQ b = t at *
+    rw [e]
+    constructor <;> nlinarith
+  · rw [hv]
+    have h1 := Int.floor_le (valQ a / valQ b)
+    have h2 := Int.lt_floor_add_one (valQ a / valQ b)
+    generalize (⌊valQ a / valQ b⌋ : ℚ) = q at *
+    have e : valQ a = valQ b * (valQ a / valQ b) := by field_simp
+    generalize valQ a / valQ b = t at *
+    rw [e]
+    constructor <;> nlinarith
+
+/-- `(% a b)` on two numbers is C `fmod` (by the shape of the handler) -/
+theorem num_rem_is_fmod (N : NumOps) (a b : Nat) : numRemainder N a b = N.fmod a b := rfl
+
 
 end JanetModel.Int64
